@@ -181,6 +181,26 @@ Proof.
   destruct (s_mix s); cbn [bind]; reject; destruct (is_strain (s_kind s)); cbn [bind]; reject; congruence.
 Qed.
 
+(* the checks made after the flows have been stratified: whatever that gave, the call is refused *)
+Theorem reject_second_age :
+  is_age (s_kind s) = true -> existsb (fun s' => is_age (s_kind s')) (m_strats m) = true ->
+  rejected (stratify_with m s0).
+Proof.
+  intros Hk H. enter.
+  destruct (s_mix s); cbn [bind]; reject; destruct (is_strain (s_kind s)); cbn [bind]; reject;
+    (destruct (collect (stratify_flow s) (m_flows m)); cbn [bind]; [|apply rejected_err]);
+    rewrite Hk; reject; rewrite H in *; discriminate.
+Qed.
+
+Theorem reject_age_on_partial :
+  is_age (s_kind s) = true -> list_str_eqb (s_comps s) (m_orig m) = false -> rejected (stratify_with m s0).
+Proof.
+  intros Hk H. enter.
+  destruct (s_mix s); cbn [bind]; reject; destruct (is_strain (s_kind s)); cbn [bind]; reject;
+    (destruct (collect (stratify_flow s) (m_flows m)); cbn [bind]; [|apply rejected_err]);
+    rewrite Hk; reject; congruence.
+Qed.
+
 End StratifyWith.
 
 (* ---------------------------------------------------------------- output requests *)
